@@ -6,6 +6,7 @@ running simulation) + truth tables / reference models of the bundled filters (di
 """
 
 import copy
+import functools
 import itertools
 
 from .. import core, harness, vloop
@@ -140,6 +141,10 @@ def run_pipeline_batch(batch, ctx):
             hist.log('filter', ci, n, dict(data))
             return apply_script(kind, n, data)
         efilter.__name__ = f"f_{ci}_{n}_{kind}"
+        if (ci + n) % 3 == 0:
+            # a callable object instead of a function (like Edge, DataEdit, functools.partial
+            # objects it has no __name__)
+            return functools.partial(efilter)
         return efilter
 
     events = []
@@ -241,7 +246,7 @@ def run_pipeline_batch(batch, ctx):
                            'delivered': exp_deliv, 'final': exp_data},
                           enumerated=case.get('enum', False))
 
-    out = harness.run_sim(build, drive)
+    out = harness.run_sim(build, drive, debug=bool(batch) and core.case_hash64(batch[0]) % 2 == 0)
     if out['exc'] is not None and not isinstance(out['exc'], vloop.Deadlock):
         raise out['exc']
     if not out.get('started'):
@@ -495,7 +500,8 @@ def ctrl_cases(ctx):
         yield {'part': 'ctrl', 'vals': [rng.choice([0, 1, '', 'on', None, 2, [], [0], {}, {'value': -1},
                                                     {'k': 'x', 'source': 'cfg'}])
                                         for _ in range(rng.randrange(2, 9))],
-               'byname': rng.random() < 0.5, 'inverted': rng.random() < 0.4}
+               'byname': rng.random() < 0.5, 'inverted': rng.random() < 0.4,
+               'debug': rng.random() < 0.5}
 
 
 def run_ctrl(case, ctx):
@@ -535,6 +541,11 @@ def run_ctrl(case, ctx):
         objs['ev'] = edzed.Event(dest, 'e', efilter=edzed.IfOutput(ref))
         objs['ev_ao'] = edzed.Event(
             dest, 'ao', efilter=edzed.DataEdit.add_output('c', 'ctrl' if case['byname'] else ctrl))
+        # the same source named twice (one chain) and once more in another event's filter
+        src_ref = 'ctrl' if case['byname'] else ctrl
+        objs['ev_ao2'] = edzed.Event(
+            dest, 'ao2', efilter=edzed.DataEdit.add_output('c', src_ref).add_output('d', src_ref))
+        objs['ev_ao3'] = edzed.Event(dest, 'ao3', efilter=edzed.DataEdit.add_output('e', src_ref))
         ev_init = edzed.Event(dinit, 'i', efilter=NotIfInit('late' if case['byname'] else late))
         Starter('starter', x_ev=ev_init, x_late=late)
         objs['ctrl'], objs['late'] = ctrl, late
@@ -563,9 +574,20 @@ def run_ctrl(case, ctx):
             recv = [e for e in hist.kinds('recv') if e[4] == 'ao']
             if len(recv) != 1 or recv[0][5].get('c') != out or type(recv[0][5].get('c')) is not type(out):
                 ctx.violation(case, 'add_output', f"add_output: control output {out!r}, got {recv}")
+            for evname, keys in (('ao2', ('c', 'd')), ('ao3', ('e',))):
+                try:
+                    objs['ev_' + evname].send(src, k=k)
+                except Exception as err:    # pylint: disable=broad-except
+                    ctx.violation(case, 'add_output', f"add_output naming the same source again: "
+                                  f"send() raised {err!r}")
+                    return False
+                recv = [e for e in hist.kinds('recv') if e[4] == evname]
+                if len(recv) != 1 or any(recv[0][5].get(key) != out for key in keys):
+                    ctx.violation(case, 'add_output',
+                                  f"add_output x{len(keys)} of the same source: output {out!r}, got {recv}")
         return True
 
-    out = harness.run_sim(build, drive)
+    out = harness.run_sim(build, drive, debug=case.get('debug', False))
     if out['exc'] is not None and not isinstance(out['exc'], vloop.Deadlock):
         raise out['exc']
     if not out.get('started'):
